@@ -229,6 +229,10 @@ impl Parser {
                 if !arg_errs.is_empty() {
                     return Err(arg_errs);
                 }
+                if const_exprs.is_empty() {
+                    // `max()` / `min()` of nothing has no value
+                    return Err(vec![(ParseErrorEnum::InvalidConstExpr, expr.meta)]);
+                }
                 if f == "max" {
                     Ok(ConstExpr(ConstExprEnum::Max(const_exprs), expr.meta))
                 } else {
